@@ -1,5 +1,6 @@
 import TrackpyV.Props.C14Bg
 import TrackpyV.Proofs.FindLink
+import TrackpyV.Proofs.RelocOracle
 /-!
 # C14 — a model of `FindLinker.next_level` and what is proved about it
 
@@ -25,6 +26,12 @@ import TrackpyV.Proofs.FindLink
                              shadow relation of `Props/C14.lean` is satisfiable on every input and
                              not stricter than the algorithm it judges.  Mode: validity
                              (`cfg.noOpt = true`), the mode in which C14 runs the monitor (op FLRUN).
+* `relocOracle_ok`, `flAlgo_added_admissible_reloc`   the executable model of
+                             `get_relocate_candidates` (`Relocate.relocateCandidates`, any image)
+                             KEEPS the contract `OracleOK` when the integer weights describe the
+                             same ellipsoids (`GeomAgree`: `wᵢ·rᵢ² = B`); hence the composed step
+                             (model of next_level + model of relocation) emits only admissible
+                             features — no oracle hypothesis left;
 * `flAlgo_solver_total`      the branch-and-bound never fails on a sub-net of the step;
 * `shortcut_one_zero`, `shortcut_one_one`   the shortcut cases of the sub-net linker
                              (subnetlinker.py:375-383) agree with the general solver.
@@ -272,6 +279,91 @@ theorem shortcut_one_one (B d j : Nat) (h : d ≤ B) :
   simp [solveOrdered, go, exceeds, taken, better]
   omega
 
+/-! ## the oracle instantiated with the model of `get_relocate_candidates` -/
+
+/-- the oracle of the step model instantiated with the executable model
+`Relocate.relocateCandidates` of `get_relocate_candidates` on the image `img` -/
+def relocOracle (rc : Relocate.Cfg) (img : Find.Image) : Oracle :=
+  fun hash pos => (Relocate.relocateCandidates rc img hash pos).map
+    (fun x => (Relocate.toI x.1, x.2))
+
+/-- the integer geometry of the linker model (`cfg.w`, `cfg.B`; `f.sepW`, `f.sepB`; margin box,
+minmass) describes the search-range / separation ellipsoids, the image and the mass bound of the
+relocation model: `wᵢ·search_rangeᵢ² = B`, `sepWᵢ·separationᵢ² = sepB` on every axis -/
+structure GeomAgree (cfg : Cfg) (f : FCfg) (rc : Relocate.Cfg) (img : Find.Image) : Prop where
+  range : Relocate.WeightsAgree cfg.B cfg.w rc.sr
+  sep : Relocate.WeightsAgree f.sepB f.sepW rc.sep
+  shape : f.shape = img.shape
+  margin : f.margin = rc.radius
+  mass : (f.minmass : Rat) ≤ rc.minmass
+
+/-- **relocOracle_ok.**  The executable model of `get_relocate_candidates` (`Model/Relocate.lean`)
+KEEPS the oracle contract of the step model, for every well-formed parameter set and image:
+`reloc_outside_margin`, `reloc_mass_ge_minmass`, `reloc_within_search_range`,
+`reloc_clear_of_hash_all` (with `bg_radius_covers`) and `relocateWith_pairwise`, transported to the
+integer geometry by `dist2_scale`. -/
+theorem relocOracle_ok (cfg : Cfg) (f : FCfg) (rc : Relocate.Cfg) (img : Find.Image)
+    (hw : Relocate.wellFormed rc img = true) (hp : 0 ≤ rc.pct) (hg : GeomAgree cfg f rc img) :
+    OracleOK cfg f (relocOracle rc img) := by
+  have hw' := hw
+  simp only [Relocate.wellFormed, Bool.and_eq_true, decide_eq_true_eq, List.all_eq_true] at hw'
+  obtain ⟨⟨⟨⟨⟨⟨⟨_, hr⟩, _⟩, _⟩, _⟩, hsep⟩, _⟩, _⟩ := hw'
+  have hsep' : ∀ s ∈ rc.sep, s ≠ 0 := fun s hs => ne_of_gt (hsep s hs).1
+  have hB : (0 : Rat) ≤ (cfg.B : Rat) := Nat.cast_nonneg _
+  have hsB : (0 : Rat) ≤ (f.sepB : Rat) := Nat.cast_nonneg _
+  have sepOf : ∀ p q : Pos, 1 ≤ Find.dist2 rc.sep p q → f.sepB ≤ dist2 f.sepW q p := by
+    intro p q h
+    have := Relocate.dist2_scale f.sepB f.sepW rc.sep q p hg.sep
+    have h2 : (f.sepB : Rat) ≤ ((dist2 f.sepW q p : Nat) : Rat) := by
+      rw [this]; nlinarith
+    exact_mod_cast h2
+  refine ⟨?_, ?_, ?_, ?_, ?_⟩
+  · intro hash pos x hx
+    obtain ⟨⟨c, v⟩, hc, rfl⟩ := List.mem_map.mp hx
+    rw [hg.shape, hg.margin]
+    exact Relocate.insideMargin_of_outside _ _ c
+      (Relocate.reloc_outside_margin rc img _ pos hr c v hc)
+  · intro hash pos x hx
+    obtain ⟨⟨c, v⟩, hc, rfl⟩ := List.mem_map.mp hx
+    have h1 := (Relocate.reloc_mass_ge_minmass rc img _ pos c v hc).1
+    have h2 : (f.minmass : Rat) ≤ (v : Rat) := le_trans hg.mass h1
+    exact_mod_cast h2
+  · intro hash pos x hx
+    obtain ⟨⟨c, v⟩, hc, rfl⟩ := List.mem_map.mp hx
+    obtain ⟨p, hpm, hd⟩ := Relocate.reloc_within_search_range rc img _ pos c v hc
+    simp only [inReach, List.any_eq_true, decide_eq_true_eq]
+    refine ⟨p, hpm, ?_⟩
+    have := Relocate.dist2_scale cfg.B cfg.w rc.sr p (Relocate.toI c) hg.range
+    have h2 : ((dist2 cfg.w p (Relocate.toI c) : Nat) : Rat) ≤ (cfg.B : Rat) := by
+      rw [this]; nlinarith
+    exact_mod_cast h2
+  · intro hash pos x hx b hb
+    obtain ⟨⟨c, v⟩, hc, rfl⟩ := List.mem_map.mp hx
+    have h1 := Relocate.reloc_clear_of_hash_all rc img hash pos hw hp c v hc b hb
+    rw [Find.dist2_comm] at h1
+    exact sepOf _ _ h1
+  · intro hash pos
+    unfold relocOracle
+    rw [List.pairwise_map]
+    refine List.Pairwise.imp ?_ (Relocate.relocateWith_pairwise rc img _ pos hsep')
+    intro x y h
+    exact sepOf _ _ h
+
+/-- **flAlgo_added_admissible_reloc.**  The composition: one `FindLinker.next_level` of the step
+model with relocation by the model of `get_relocate_candidates` on ANY image emits the detected
+level followed by features that keep the margin, are at least `separation` away from every
+detected feature and from each other, and weigh at least `minmass` — no hypothesis about the
+oracle left. -/
+theorem flAlgo_added_admissible_reloc (cfg : Cfg) (f : FCfg) (rc : Relocate.Cfg) (img : Find.Image)
+    (hw : Relocate.wellFormed rc img = true) (hp : 0 ≤ rc.pct) (hg : GeomAgree cfg f rc img)
+    (st : State) (t : Int) (dsts : List Pos) :
+    ∃ extra, (flAlgoStep cfg st t (relocOracle rc img) dsts).dsts = dsts ++ extra ∧
+      (∀ x ∈ extra, insideMargin f.shape f.margin x = true) ∧
+      (∀ x ∈ extra, ∀ b ∈ dsts, f.sepB ≤ dist2 f.sepW x b ∧ f.sepB ≤ dist2 f.sepW b x) ∧
+      extra.Pairwise (fun x y => f.sepB ≤ dist2 f.sepW x y ∧ f.sepB ≤ dist2 f.sepW y x) ∧
+      ∀ m ∈ (flAlgoStep cfg st t (relocOracle rc img) dsts).masses, f.minmass ≤ m :=
+  flAlgo_added_admissible cfg f st t _ (relocOracle_ok cfg f rc img hw hp hg) dsts
+
 /-! ## non-vacuity (tests, labelled as such) -/
 
 /-- search_range 3 (B = 9), memory 0, validity mode — the configuration of `Props/C14.exL` -/
@@ -372,5 +464,33 @@ example : flRun exL (flAlgoRun exL [(0, [[0, 0], [10, 0]], exOrc), (1, [[1, 0]],
 /-- the shortcuts of the sub-net linker on concrete numbers -/
 example : solveOrdered [[(some 3, 2), (none, 9)]] = some (2, [(some 3, 2)]) :=
   shortcut_one_one 9 2 3 (by decide)
+
+/-! ### … with the relocation model as oracle (image `Relocate.exImg`, 9×9, a peak at (4,5)) -/
+
+/-- search_range 2 (B = 4·1), separation 3 (sepB = 9·1), the image and margin of `Relocate.exCfg` -/
+def exL2 : Cfg := { exL with B := 4 }
+def exF2 : FCfg := { sepW := [1, 1], sepB := 9, shape := [9, 9], margin := [1, 1], minmass := 5 }
+
+/-- the hypotheses of `relocOracle_ok` are satisfiable -/
+example : GeomAgree exL2 exF2 Relocate.exCfg Relocate.exImg := by
+  refine ⟨?_, ?_, rfl, rfl, ?_⟩
+  · simp [Relocate.WeightsAgree, exL2, exL, Relocate.exCfg]; norm_num
+  · simp [Relocate.WeightsAgree, exF2, Relocate.exCfg]; norm_num
+  · simp [exF2, Relocate.exCfg]
+
+theorem exOrc2 : relocOracle Relocate.exCfg Relocate.exImg [] [[4, 4]] = [([4, 5], 21)] := by
+  decide +kernel
+
+/-- a trajectory last seen at (4,4); in the next frame nothing is detected: the model asks the
+relocation model, which finds the peak at (4,5) (mass 21) in the image, and continues trajectory 0 -/
+example : flAlgoStep exL2 (firstState 0 [[4, 4]]) 1 (relocOracle Relocate.exCfg Relocate.exImg) [] =
+    { dsts := [[4, 5]], added := [0], masses := [21], labels := [0] } := by
+  have hg : flGroups exL2 (firstState 0 [[4, 4]]) 1 [] = [([0], [])] := by decide +kernel
+  unfold flAlgoStep flAcc
+  rw [hg]
+  simp [processGroup, short, viewOf, view, firstState, nextState,
+    fcands, candsOf, candsOfRow, distRow, dist2, sqI, insCand, keepCand_none, keepCand_some,
+    solveOrdered, go, exceeds, taken, better, inReach, exL2, exL, labelOf, trackOf, initCfg,
+    List.range, List.range.loop, List.zipIdx, List.filter_cons, exOrc2]
 
 end TrackpyV.FindLink
